@@ -86,8 +86,12 @@ fn read_integer_array_value<'a>(src: &mut &'a [u8]) -> io::Result<Option<Value<'
         Some(TypedValue::Int8(Some(Int8::Value(n)))) => Ok(Some(Value::Array(Array::Integer(
             Box::new(Once::new(i32::from(n))),
         )))),
-        Some(TypedValue::Int16(Some(Int16::Value(n)))) => Ok(Some(Value::Integer(i32::from(n)))),
-        Some(TypedValue::Int32(Some(Int32::Value(n)))) => Ok(Some(Value::Integer(n))),
+        Some(TypedValue::Int16(Some(Int16::Value(n)))) => Ok(Some(Value::Array(Array::Integer(
+            Box::new(Once::new(i32::from(n))),
+        )))),
+        Some(TypedValue::Int32(Some(Int32::Value(n)))) => {
+            Ok(Some(Value::Array(Array::Integer(Box::new(Once::new(n))))))
+        }
         Some(TypedValue::Array(TypedArray::Int8(values))) => {
             Ok(Some(Value::Array(Array::Integer(Box::new(values)))))
         }
